@@ -239,6 +239,9 @@ func universal(sc *Scn, x *vrt.Sched, w *World) []Finding {
 		if !sp.Srv.NoOnClose {
 			if vnet.Accepted() >= 0 && len(w.OnClose) != vnet.Accepted() {
 				add("C08", fmt.Sprintf("OnClose called %s than once per accepted connection", map[bool]string{true: "more", false: "less"}[len(w.OnClose) > vnet.Accepted()]), fmt.Sprintf("accepted=%d OnClose calls=%v; log: %v", vnet.Accepted(), w.OnClose, x.Log))
+				if len(w.OnClose) < vnet.Accepted() && runPos >= 0 {
+					add("C12", "Stop and Run have returned although the OnClose callback of an accepted connection has never run", fmt.Sprintf("accepted=%d OnClose calls=%v; log: %v", vnet.Accepted(), w.OnClose, x.Log))
+				}
 			}
 			seen := map[int]bool{}
 			for _, id := range w.OnClose {
